@@ -67,7 +67,7 @@ func NewApo[T helper.Number]() *Apo[T] {
 // Compute function takes a channel of numbers and computes the APO
 // over the specified period.
 func (apo *Apo[T]) Compute(c <-chan T) <-chan T {
-	c = helper.Buffered(c, apo.SlowPeriod)
+	c = helper.Buffered(c, max(apo.FastPeriod, apo.SlowPeriod))
 	cs := helper.Duplicate(c, 2)
 
 	fastEma := NewEma[T]()
